@@ -1,6 +1,6 @@
 (* C23  Suppressions hide exactly the matching findings.
    Statements only; every proof is `exact <lemma>`. *)
-From CV Require Import Base.Bytes Base.Glob Base.GlobProofs Base.GlobTermination Supp.Defs Supp.Proofs Supp.ListProofs Supp.ParseDefs Supp.ParseProofs.
+From CV Require Import Base.Bytes Base.Glob Base.GlobProofs Base.GlobTermination Supp.Defs Supp.Proofs Supp.ListProofs Supp.ParseDefs Supp.ParseProofs Supp.PairDefs Supp.PairProofs.
 Local Open Scope N_scope.
 
 (* the declarative glob language: '*' any sequence, '?' one character *)
@@ -111,9 +111,33 @@ Theorem C23_parse_multi_spec pre ids post :
 Proof. exact (parse_multi_spec pre ids post). Qed.
 Print Assumptions C23_parse_multi_spec.
 
+(* -begin / -end comments of a file, any number: every resulting block suppression is a
+   (begin, end on a later line, same symbol name) pair of the file with the lines of the two
+   comments, and every entry is accounted for (half of a block, or reported invalid) *)
+Theorem C23_pair_blocks_sound es blocks bad :
+  pair_blocks es = (blocks, bad) ->
+  (forall k, In k blocks -> block_ok es k) /\ N.of_nat (length es) = bad + 2 * N.of_nat (length blocks).
+Proof. exact (pair_blocks_sound es blocks bad). Qed.
+Print Assumptions C23_pair_blocks_sound.
+
+Theorem C23_pair_single i1 i2 sy l1 l2 : (l1 < l2)%Z ->
+  pair_blocks [mkBE false i1 sy l1; mkBE true i2 sy l2] = ([mkBlk i2 sy l1 l2], 0).
+Proof. exact (pair_single i1 i2 sy l1 l2). Qed.
+Print Assumptions C23_pair_single.
+
+(* REFUTED: "a block is opened and closed for the same id". The ids are not compared:
+   -begin uninitvar ... -end nullPointer yields a block suppression for nullPointer, nothing invalid *)
+Theorem C23_pair_same_id_refuted :
+  pair_blocks [mkBE false S_UNINITVAR [] 3; mkBE true S_NULLPTR [] 5] = ([mkBlk S_NULLPTR [] 3 5], 0)
+  /\ S_UNINITVAR <> S_NULLPTR.
+Proof. exact pair_ids_not_compared. Qed.
+Print Assumptions C23_pair_same_id_refuted.
+
 (* premises are inhabited *)
 Example C23_ex_printable : printable (fun x => x) (mkPL [97] [98;46;99] 12 [115] false).   (* a:b.c:12 symbol s *)
 Proof. unfold printable. cbn. repeat split; try reflexivity; try discriminate. Qed.
+Example C23_ex_pair : exists b n, pair_blocks [mkBE false [97] [] 1; mkBE true [97] [] 2] = (b, n).
+Proof. eexists. eexists. reflexivity. Qed.
 Example C23_ex_wordlike : wordlike [110;117;108;108;80;111;105;110;116;101;114].
 Proof. repeat split. discriminate. Qed.
 Example C23_ex_kw : In [99;112;112;99;104;101;99;107;45;115;117;112;112;114;101;115;115] KW.
